@@ -428,6 +428,28 @@ func (e *SpecEnv) findCell(name string) *Cell {
 			}
 		}
 	}
+	if e.curLoop != nil && !strings.Contains(name, "#") {
+		// inside a loop clause a name means the innermost declaration in scope: the last variable of
+		// that name declared in a block dominating the loop header (or inside the loop)
+		var best *ssa.Alloc
+		for _, b := range fr.fn.Blocks {
+			if !(b.Dominates(e.curLoop.header) || e.curLoop.body[b]) {
+				continue
+			}
+			for _, in := range b.Instrs {
+				if a, ok := in.(*ssa.Alloc); ok && a.Comment == name {
+					if _, live := fr.allocCell[a]; live {
+						if best == nil || !e.curLoop.body[b] {
+							best = a
+						}
+					}
+				}
+			}
+		}
+		if best != nil {
+			return fr.allocCell[best]
+		}
+	}
 	k := 0
 	for _, b := range fr.fn.Blocks {
 		for _, in := range b.Instrs {
@@ -533,6 +555,11 @@ func fieldIndex(st *types.Struct, name string) int {
 
 func (e *SpecEnv) index(xv, iv Val) Val {
 	x := e.x
+	if p, ok := xv.(*Place); ok && p.ArrayPtr {
+		// a local array variable ([N]T): element read
+		i := e.term(iv)
+		return x.load(e.st, nil, &Place{Kind: pkElem, Ref: p.Ref, Idx: i.S, Base: p.Base, T: p.Base}, nil)
+	}
 	t := e.term(xv)
 	i := e.term(iv)
 	if t.T == nil {
